@@ -992,3 +992,71 @@ func CmpEdges(fn *ssa.Function, match func(x, y ssa.Value) bool, holdsWhen func(
 	}
 	return out
 }
+
+// ---------------------------------------------------------------------------
+// forward flow
+
+// ForwardFlow returns the instructions that (transitively) use v: through
+// value operands, and through local memory (a store into a cell reaches the
+// loads of that cell or of an enclosing/enclosed cell).
+func ForwardFlow(v ssa.Value) map[ssa.Instruction]bool {
+	fn := v.Parent()
+	out := map[ssa.Instruction]bool{}
+	seenV := map[ssa.Value]bool{}
+	var visitV func(v ssa.Value)
+	visitCell := func(key string) {
+		if fn == nil {
+			return
+		}
+		Instrs(fn, true, func(in ssa.Instruction) {
+			u, ok := in.(*ssa.UnOp)
+			if !ok || u.Op != token.MUL {
+				return
+			}
+			k2 := AddrKey(u.X)
+			if k2 == key || strings.HasPrefix(k2, key+".") || strings.HasPrefix(k2, key+"[") ||
+				strings.HasPrefix(key, k2+".") || strings.HasPrefix(key, k2+"[") {
+				out[u] = true
+				visitV(u)
+			}
+		})
+	}
+	visitV = func(v ssa.Value) {
+		if seenV[v] {
+			return
+		}
+		seenV[v] = true
+		refs := v.Referrers()
+		if refs == nil {
+			return
+		}
+		for _, r := range *refs {
+			out[r] = true
+			switch r := r.(type) {
+			case *ssa.Store:
+				if r.Val == v {
+					visitCell(AddrKey(r.Addr))
+				}
+			case ssa.Value:
+				switch r.(type) {
+				case *ssa.Call:
+					// the result of a call is not assumed to carry its arguments
+				default:
+					visitV(r)
+				}
+			}
+		}
+	}
+	visitV(v)
+	return out
+}
+
+// FlowsToReturn reports whether v can reach a return operand of its function.
+func FlowsToReturn(v ssa.Value) bool {
+	for in := range ForwardFlow(v) {
+		if _, ok := in.(*ssa.Return); ok {
+			return true
+		}
+	}
+	return false
+}
